@@ -2510,6 +2510,10 @@ func (c *compiler) VisitForStmt(s *ast.ForStmt) ast.VisitResult {
 	} else { // stepsize was present, so compile it
 		incrementer, incrementerType, _ = c.evaluate(s.StepSize)
 	}
+	// the temporaries of the start value and the step size are freed here, once,
+	// and not on every 'Fahre mit der Schleife fort'
+	c.freeTemporaries(c.scp, true)
+	c.scp.temporaries = nil
 
 	condBlock := c.cf.NewBlock("")
 	incrementBlock := c.cf.NewBlock("")
@@ -2560,14 +2564,18 @@ func (c *compiler) VisitForStmt(s *ast.ForStmt) ast.VisitResult {
 
 	c.cbb = loopUp
 	// we are counting up, so compare less-or-equal
+	c.scp = newScope(c.scp) // temporaries of the bound are freed after every evaluation
 	to, toType, _ := c.evaluate(s.To)
+	c.scp = c.exitScope(c.scp)
 	cond = new_IorF_comp(enum.IPredSLE, enum.FPredOLE, c.cbb.NewLoad(indexTyp.IrType(), indexVar), indexTyp, to, toType, to)
 	c.commentNode(c.cbb, s, "")
 	c.cbb.NewCondBr(cond, forBody, leaveBlock)
 
 	c.cbb = loopDown
 	// we are counting down, so compare greater-or-equal
+	c.scp = newScope(c.scp) // temporaries of the bound are freed after every evaluation
 	to, toType, _ = c.evaluate(s.To)
+	c.scp = c.exitScope(c.scp)
 	cond = new_IorF_comp(enum.IPredSGE, enum.FPredOGE, c.cbb.NewLoad(indexTyp.IrType(), indexVar), indexTyp, to, toType, to)
 	c.commentNode(c.cbb, s, "")
 	c.cbb.NewCondBr(cond, forBody, leaveBlock)
